@@ -277,7 +277,8 @@ func c12Case(t *rapid.T, ev *evProp, realDKG bool) {
 const c12Rule = "case = Ed25519, n in 3..7, t in [n/2+1, n] (1/4 of the cases: any t in 1..n), long-term and two one-time distributed keys (dealer polynomials wrapped as DistKeyShare; in 1/5 of the thorough cases the outputs of real Pedersen and Rabin DKG runs), a message of 0..200 bytes; " +
 	"1..n receiving participants each get their own random subset of the other participants' partial signatures in a random order, with injected partials before 1/3 of them from {value+1, value+1 re-signed by its owner, signed by another participant, partial of another session, other-session value relabelled with this session id and re-signed, duplicate, index >= n, another participant's index re-signed by that participant, corrupted signature, nil session id}. " +
 	"Oracle: an injected invalid partial returns an error and does not change EnoughPartialSig; valid ones are accepted; EnoughPartialSig <=> >= t distinct accepted (own included); Signature errors below t; otherwise it verifies with dss.Verify, eddsa.Verify, schnorr.Verify and crypto/ed25519.Verify under the distributed key, and all participants derive byte-identical signatures. " +
-	"non-trivial = at least one injected partial or an out-of-index-order delivery; distinct = distinct rendered case"
+	"non-trivial = at least one injected partial or an out-of-index-order delivery; distinct = distinct rendered case" +
+	" Added after the sensitivity rounds: long-term and one-time thresholds drawn independently (T = max); each receiver issues its own partial at a generated position of its delivery sequence."
 
 func TestC12_DSS(t *testing.T) {
 	ev := evFor("C12")
